@@ -17,6 +17,9 @@ pub struct L2Cfg {
     pub wall: Duration,
 }
 
+/// more threads than this parked for ever by one scenario's executions: stop exploring it
+const LEAK_LIMIT: u64 = 1200;
+
 pub fn mode_name(m: Mode) -> &'static str {
     match m {
         Mode::Chess => "chess",
@@ -55,6 +58,7 @@ where
 {
     let t0 = Instant::now();
     let mut outcome_set: std::collections::BTreeSet<u64> = Default::default();
+    let mut leaked_here: u64 = 0;
     let bounds: Vec<Option<u32>> = match cfg.bound {
         None => vec![None],
         Some(b) => (0..=b).map(Some).collect(),
@@ -72,6 +76,7 @@ where
         let mut stats = ExploreStats::default();
         let mut first: Option<(Vec<(String, String)>, RunResult, O)> = None;
         let mut outcomes: Vec<u64> = Vec::new();
+        let mut leak_stop = false;
         explore(
             &ecfg,
             Node {
@@ -92,11 +97,18 @@ where
                 if res.divergence.is_some() {
                     return (res, true);
                 }
+                leaked_here += res.leaked_threads as u64;
                 let fails = judge(&ob, &res);
                 outcomes.push(res.trace_hash);
                 outcome_set.insert(hash_str(&format!("{:?}/{:?}", ob, res.end)));
                 if !fails.is_empty() {
                     first = Some((fails, res.clone(), ob));
+                    return (res, false);
+                }
+                if leaked_here > LEAK_LIMIT {
+                    // executions that the oracle accepts keep leaving threads parked for ever
+                    // (e.g. pool workers after shutdown): this process cannot hold more
+                    leak_stop = true;
                     return (res, false);
                 }
                 (res, true)
@@ -129,6 +141,12 @@ where
             }
             break;
         }
+        if leak_stop {
+            acc.capped = true;
+            acc.count("scenarios_cut_by_thread_leak_limit", 1);
+            acc.notes.insert(format!("exploration of a scenario stopped after {} executions had left {} threads blocked for ever (executions the oracle accepts); see DESIGN.md 3.4", stats.execs, leaked_here));
+            break;
+        }
         if stats.capped {
             acc.capped = true;
             acc.count("scenarios_cut_by_cap", 1);
@@ -137,6 +155,7 @@ where
         completed_bound = b.map_or(i64::MAX, |x| x as i64);
     }
     acc.distinct_traces += last_distinct;
+    acc.leaked_threads += leaked_here;
     // distinct observations of this scenario (salted with the scenario so that equal
     // observations of different scenarios stay distinct)
     let salt = hash_str(&scenario.to_string());
